@@ -626,6 +626,29 @@ impl Stream {
     }
 }
 
+#[cfg(feature = "verif")]
+impl Stream {
+    /// Last generated/accepted id as recorded under the data mutex (read-only accessor).
+    pub fn verif_last_id(&self) -> StreamId {
+        self.data.lock().unwrap().last_id
+    }
+
+    /// Stored entries in stored order, fields sorted (read-only accessor).
+    pub fn verif_entries(&self) -> Vec<((u64, u64), Vec<(Vec<u8>, Vec<u8>)>)> {
+        let data = self.data.lock().unwrap();
+        data.entries.iter().map(|e| {
+            let mut f: Vec<(Vec<u8>, Vec<u8>)> = e.fields.iter().map(|(k, v)| (k.clone(), v.clone())).collect();
+            f.sort();
+            ((e.id.millis(), e.id.seq()), f)
+        }).collect()
+    }
+
+    /// Consumer groups of this stream (read-only accessor).
+    pub fn verif_groups(&self) -> Vec<Arc<ConsumerGroup>> {
+        self.consumer_groups.list_groups()
+    }
+}
+
 impl Clone for Stream {
     fn clone(&self) -> Self {
         let data = self.data.lock().unwrap();
